@@ -314,6 +314,30 @@ func (a *Adversary) mixedProof(h, v uint64, x *fakes.Block) *ProofSpec {
 	return &q
 }
 
+// viewShiftedProof: genuine PREPARE signatures for block b given in view pv, under a PREPREPARE reference for the SAME block
+// that claims a later view w < v led by the adversary: the proof would outrank genuinely higher ones.
+func (a *Adversary) viewShiftedProof(h, v uint64) (*ProofSpec, *fakes.Block) {
+	p, blk := a.bestProof(h, v, 0)
+	if p == nil {
+		return nil, nil
+	}
+	for wv := v - 1; wv > p.PP.V; wv-- {
+		if li := a.w.LeaderIdx(h, wv); a.owns(li) {
+			q := *p
+			q.PP = a.ref(TPP, h, wv, p.PP.Hash)
+			q.PPSender = a.signedRef(li, q.PP)
+			q.PSenders = nil
+			for _, ps := range p.PSenders { // the claimed view's leader must not be among the preparers
+				if !primitives.MemberId(ps.ID).Equal(a.w.IDs[li]) {
+					q.PSenders = append(q.PSenders, ps)
+				}
+			}
+			return &q, blk
+		}
+	}
+	return nil, nil
+}
+
 func (a *Adversary) vote(as int, h, v uint64, proof *ProofSpec) VoteSpec {
 	vs := VoteSpec{Type: TVC, Inst: uint64(Instance) + a.instOff, H: h, V: v, Proof: proof}
 	vs.Sender = SigSpec{ID: a.w.IDs[as], Sig: a.sign(as, h, vs.HeaderRaw())}
@@ -493,7 +517,9 @@ func (a *Adversary) newView(s *ByzSpec) {
 	}
 	var ownProof *ProofSpec
 	var ownBlock *fakes.Block
-	switch par(s, 1) % 5 {
+	switch par(s, 1) % 6 {
+	case 5: // a lower genuine certificate dressed up as a higher view
+		ownProof, ownBlock = a.viewShiftedProof(h, v)
 	case 1:
 		ownProof, ownBlock = a.bestProof(h, v, 0)
 	case 2:
@@ -587,5 +613,5 @@ func (a *Adversary) newView(s *ByzSpec) {
 	spec := &MsgSpec{Union: UNV, NVType: TNV, NVInst: uint64(Instance) + a.instOff, NVH: h, NVV: v, Votes: votes, PPRef: &ppr, PPSend: &pps, Block: blk}
 	spec.Sender = SigSpec{ID: w.IDs[s.As], Sig: a.sign(s.As, h, spec.NVHeaderRaw())}
 	a.Proposals = append(a.Proposals, AdvProposal{h, ppv, hash, blk})
-	a.inject(fmt.Sprintf("nv:votes%d:proof%d:pp%d", mode, par(s, 1)%5, par(s, 3)%4), spec, s.To)
+	a.inject(fmt.Sprintf("nv:votes%d:proof%d:pp%d", mode, par(s, 1)%6, par(s, 3)%4), spec, s.To)
 }
